@@ -233,6 +233,9 @@ func runRagDoc(c *hx.Ctx, idx int) {
 		c.Count(fmt.Sprintf("ragdoc opts offset=%d", o.HeadingLevelOffset))
 		c.Count(fmt.Sprintf("ragdoc opts max=%d", o.MaxHeadingLevel))
 	}
+	if idx%2 == 0 { // one ChunkCollection rendered several times (history.go)
+		runRagHistory(c, idx, d, kase)
+	}
 	// distribution: how heading texts recur
 	var hs []Block
 	for _, b := range d.Blocks {
